@@ -21,7 +21,7 @@ TRUSTED = ['the rotation returned by get_rotation_matrix is recorded from the re
 RULE = ('reference complexes of two chains (3-8 residues each, backbone + side chains, negative and non-contiguous numbering), decoys by '
         'deformation / rigid displacement / deletion of atoms and residues, contact cutoffs 3-12; the four routines x both superposition methods, '
         'residue matching enforced or not; zones computed in memory. Chain sizes are made unambiguous (the property\'s domain). '
-        'Non-trivial: the decoy is displaced or incomplete, or the numbering is negative / non-contiguous.')
+        'Chain labels vary (A/B, A/a, b/B, X/A, 1/2, B/C); a third of the pairs carry HETATM waters / ions in both files; enforced calls also with the flag as np.bool_ / 1. Non-trivial: the decoy is displaced or incomplete, or the numbering is negative / non-contiguous.')
 
 ROUTES = ['irmsd_fast', 'irmsd_sql', 'lrmsd_fast', 'lrmsd_sql']
 
@@ -44,7 +44,9 @@ def gen_pair(rng, permute=False):
     feats = set()
     for _ in range(50):
         nres = rng.choice([(3, 5), (4, 8), (3, 8)])
-        ref = gen_complex.gen_complex(rng, nres=nres, negative=True)
+        labels = rng.choice([('A', 'B')] * 4 + [('A', 'a'), ('b', 'B'), ('X', 'A'), ('1', '2'), ('B', 'C')])   # two chains, whatever their labels
+        ref = gen_complex.gen_complex(rng, nres=nres, negative=True, chains=labels)
+        if labels != ('A', 'B'): feats.add('chain-labels-' + ''.join(labels))
         # make the two chains clearly different in size
         chains = sorted({a['chainID'] for a in ref})
         decoy = [dict(a) for a in ref]
@@ -72,8 +74,8 @@ def gen_pair(rng, permute=False):
 def evaluate_pair(ctx, pdb2sql, case, rep, prop='C07'):
     """runs the requested calls on one reference/decoy pair; returns list of (call, impl, model, specval, verdict)"""
     ref, decoy = case['ref'], case['decoy']
-    rp = gen_complex.write_pdb(os.path.join(ctx.scratch, 'ref_c07.pdb'), ref)
-    dp = gen_complex.write_pdb(os.path.join(ctx.scratch, 'decoy_c07.pdb'), decoy)
+    rp = gen_complex.write_pdb(os.path.join(ctx.scratch, 'ref_c07.pdb'), ref, hetatm=case.get('het_ref'))
+    dp = gen_complex.write_pdb(os.path.join(ctx.scratch, 'decoy_c07.pdb'), decoy, hetatm=case.get('het_decoy'))
     ref_t, dec_t = SC.table_atoms(ref), SC.table_atoms(decoy)
     wr, wd = gen_contact.wire_table(ref_t), gen_contact.wire_table(dec_t)
     cutoff = case.get('cutoff', 10)
@@ -122,7 +124,7 @@ def evaluate_pair(ctx, pdb2sql, case, rep, prop='C07'):
             if c['zone'] == 'written' and os.path.exists(zf):
                 os.remove(zf)
         res, mats = SC.call(pdb2sql, route, dp, rp, enforce, method=method, check=check, zonefile=zf,
-                            cutoff=(cutoff if route.startswith('irmsd') else None))
+                            cutoff=(cutoff if route.startswith('irmsd') else None), flagcar=c.get('flagcar'))
         R = mats[-1] if mats else None
         zone = izone if route.startswith('irmsd') else lzone
         reqs.append(SC.model_request(route, R, zone, dec_t, ref_t, enforce, check=check, cutoff=cutoff,
@@ -189,6 +191,8 @@ def default_calls(rng, n=6):
         for method in ('svd', 'quaternion'):
             calls.append({'route': route, 'method': method, 'enforce': False})
     extra = [{'route': rng.choice(ROUTES), 'method': rng.choice(['svd', 'quaternion']), 'enforce': True} for _ in range(2)]
+    extra[1]['flagcar'] = rng.choice(['npbool', 'int01'])       # the flag as an element of a boolean array / a 0-1 integer
+    extra.append({'route': rng.choice(['irmsd_fast', 'lrmsd_fast', 'lrmsd_sql']), 'method': 'svd', 'enforce': True, 'flagcar': rng.choice(['npbool', 'int01'])})
     extra.append({'route': rng.choice(['irmsd_fast', 'lrmsd_fast']), 'method': 'svd', 'enforce': False, 'check': False})
     r = rng.choice(['irmsd_fast', 'irmsd_fast', 'lrmsd_fast'])      # (the SQL i-RMSD only reads zone files)
     extra.append({'route': r, 'method': 'svd', 'enforce': False, 'zone': 'written'})
@@ -224,6 +228,12 @@ def explore(ctx, tier, rng, search=False):
         if ref is None:
             continue
         case = {'ref': ref, 'decoy': decoy, 'cutoff': rng.choice([10, 10, 10, 5, 8, 12, 3.5]), 'calls': default_calls(rng)}
+        if rng.random() < 0.3:
+            # HETATM records (waters, ions) in both files: not atoms of the structures, every routine must ignore them
+            het = gen_complex.gen_hetatm(rng, ref)
+            case['het_ref'] = het
+            case['het_decoy'] = [dict(h, x=round(h['x'] + rng.uniform(-3, 3), 3)) for h in het]
+            feats = set(feats) | {'hetatm-records'}
         cases.append((case, feats))
     for case, feats in cases:
         try:
